@@ -62,6 +62,8 @@ pub enum Op {
     IsMap(H),
     IsSet(H),
     Release(H, bool),
+    /// `release <something that is not the flag> <handle>`: the first argument is taken for the handle (unknown): false, nothing released
+    ReleaseOddFlag(String, H),
 }
 
 #[derive(Serialize, Deserialize, Clone, Debug, PartialEq)]
@@ -745,6 +747,10 @@ fn run_case(case: &Case) -> Verdict {
                 }));
                 ("release", args, if live { Want::True } else { Want::False })
             }
+            Op::ReleaseOddFlag(flag, h) => {
+                sim::with_core(|c| c.probe("release-with-a-flag-look-alike"));
+                ("release", vec![flag.clone(), hs!(h)], Want::False)
+            }
         };
         // probes
         sim::with_core(|c| {
@@ -828,7 +834,7 @@ fn run_case(case: &Case) -> Verdict {
 const LITS: [&str; 12] = ["a", "b", "x y", "", "h\u{e9}llo \u{6f22}", "0", "false", "true", "handle:zzzzzzzzzzzzzzzzzzzz", "-r", "c", "1"];
 /// values with the characters a re-serialisation would have to quote; given verbatim (no parsing is involved in
 /// an operation history), they must be stored and compared verbatim
-const ODD_LITS: [&str; 6] = ["x#y", "#", "say \"hi there\"", "a\nb", "ab", "tab\there"];
+const ODD_LITS: [&str; 13] = ["x#y", "#", "say \"hi there\"", "a\nb", "ab", "tab\there", "007", "+5", "-0", "1.50", "1e3", "0x10", " 7"];
 const FAKES: [&str; 4] = ["handle:zzzzzzzzzzzzzzzzzzzz", "nohandle", "", "handle:"];
 const IDX: [&str; 11] = ["0", "1", "2", "5", "-1", "abc", "", "1.0", "16", "17", "39"];
 
@@ -937,6 +943,7 @@ fn gen_case(rng: &mut Rng) -> Case {
                     0 => Op::IsArray(h),
                     1 => Op::IsMap(h),
                     2 => Op::IsSet(h),
+                    _ if rng.chance(1, 12) => Op::ReleaseOddFlag(rng.pick(&["-R", "-first", "-rf", "--Recursive", "-x", "-", "--r"]).to_string(), h),
                     _ => Op::Release(h, rng.chance(1, 3)),
                 },
             }
